@@ -91,6 +91,11 @@ CHECKS = {
             "Every sequence of 1..3 recording collators over collation modes {None, before, after} (with and without added context keys) through the compose collator, the single collator called directly and the single-collator wrapper, three dataset modes, with/without per-sample contexts, batch sizes 1..3: default_collate calls are counted by a harness wrapper and compared with the reference model (exactly one collation at the position asked for, what each member observes, sequences that must be rejected), output layout and content, (batch, ctx) iff configured, context keys neither lost nor invented and batched; shipped mix+mask collators in one pipeline; padding collator on every length profile {1,2,3}^b (b<=3) with fixed, second variable-length and scalar fields.",
             "Trusted: the reference model's reading of which sequences are acceptable (collation asked for twice / uncollated batch requested after collation must be rejected).",
             "DESIGN.md section 5 C18"),
+    "C19": ("E4-sched", "model_checking",
+            "stateless exploration of all thread interleavings (iterative preemption bounding) of the real cache code under a controlled scheduler with scheduling points at shared-dict operations",
+            "1..3 reader threads execute the real SharedDictDataset.__getitem__ / dispose; the Manager dict is replaced by an in-process SchedDict that pickles on store, unpickles on load and yields to the scheduler before every operation (the atomicity a Manager proxy gives separate processes; bound to the real Manager dict by replaying all 399 operation sequences of depth <=3 against both). Every program tuple (<=2 accesses per reader over two colliding indices, one clear at any position), 5 payload types, 3 post-cache transforms, every schedule with preemption bound 0,1,2 and unbounded (R<=2) is executed; values must equal transform(base[i]), no exception, transform once per access. All single-reader operation sequences of length <=4: at most one load per sample between clears, reload after a clear.",
+            "Trusted: the atomicity model and SchedDict conformance; quick tier rotates payload x transform pairs for R>=2 with VERIF_SEED; real processes are not the deciding step.",
+            "DESIGN.md section 5 C19"),
 }
 
 NOT_APPLICABLE = {
